@@ -183,6 +183,9 @@ def step(root, scratch, src_model, lab, dst_model, src_ans, seed=0, who=None, op
         X.warm(w, side)
         try:
             X.apply(root, side, act, args, who, w, opts, src_model["tref"])
+        except X.GitRefused as e:         # not dulwich's behaviour: the history ends here, counted
+            res["skip"] = str(e)[:300]
+            return res
         except Exception as e:            # the step itself failed: the model says it is enabled
             res["shape"].append(f"action raised {type(e).__name__}: {str(e)[:200]}")
             return res
